@@ -40,7 +40,7 @@ pub enum Op {
     /// macro constructor: the union of n two-letter words [b1 + s1*k][b2 + s2*k], k < n, given to union_list in a
     /// scrambled order (tree = false) or folded as a balanced tree of binary unions (tree = true); with extra, a
     /// one-letter range and a character it subsumes are among the operands
-    Wide { n: u32, b1: u32, s1: u32, b2: u32, s2: u32, extra: bool, tree: bool },
+    Wide { n: u32, b1: u32, s1: u32, b2: u32, s2: u32, extra: bool, tree: bool, ord: u8 },
 }
 
 pub const WIDE_EXTRA: u32 = 0x2F000;
@@ -62,8 +62,14 @@ pub fn wide_order(n: u32) -> Vec<u32> {
 }
 
 /// the operand words of Op::Wide in the order they are handed to the constructor: (first, last) or a one-letter range
-pub fn wide_items(n: u32, b1: u32, s1: u32, b2: u32, s2: u32, extra: bool) -> Vec<Result<(u32, u32), (u32, u32)>> {
-    let mut v: Vec<Result<(u32, u32), (u32, u32)>> = wide_order(n).into_iter().map(|k| Ok((b1 + s1 * k, b2 + s2 * k))).collect();
+pub fn wide_items(n: u32, b1: u32, s1: u32, b2: u32, s2: u32, extra: bool, ord: u8) -> Vec<Result<(u32, u32), (u32, u32)>> {
+    // operand order: 0 scrambled, 1 ascending, 2 descending first letters
+    let order: Vec<u32> = match ord {
+        1 => (0..n).collect(),
+        2 => (0..n).rev().collect(),
+        _ => wide_order(n),
+    };
+    let mut v: Vec<Result<(u32, u32), (u32, u32)>> = order.into_iter().map(|k| Ok((b1 + s1 * k, b2 + s2 * k))).collect();
     if extra {
         let h = v.len() / 2;
         v.insert(h, Err((WIDE_EXTRA, WIDE_EXTRA + 2)));
@@ -150,7 +156,7 @@ impl Op {
             Op::Comp(i) | Op::Star(i) | Op::Plus(i) | Op::Opt(i) => format!("{} {}", n, i),
             Op::Exp(i, k) | Op::LoopInf(i, k) => format!("{} {} {}", n, i, k),
             Op::SmtLoop(i, a, b) | Op::LoopFin(i, a, b) => format!("{} {} {} {}", n, i, a, b),
-            Op::Wide { n: k, b1, s1, b2, s2, extra, tree } => format!("{} {} {:x} {} {:x} {} {} {}", n, k, b1, s1, b2, s2, *extra as u8, *tree as u8),
+            Op::Wide { n: k, b1, s1, b2, s2, extra, tree, ord } => format!("{} {} {:x} {} {:x} {} {} {} {}", n, k, b1, s1, b2, s2, *extra as u8, *tree as u8, ord),
         }
     }
 
@@ -251,8 +257,10 @@ impl Op {
                 Op::LoopFin(ix(a[0])?, nu(a[1])?, nu(a[2])?)
             }
             "wide" => {
-                need(7)?;
-                Op::Wide { n: nu(a[0])?, b1: hx(a[1])?, s1: nu(a[2])?, b2: hx(a[3])?, s2: nu(a[4])?, extra: a[5] == "1", tree: a[6] == "1" }
+                if a.len() != 7 && a.len() != 8 {
+                    return Err(format!("bad arity in '{}'", line));
+                }
+                Op::Wide { n: nu(a[0])?, b1: hx(a[1])?, s1: nu(a[2])?, b2: hx(a[3])?, s2: nu(a[4])?, extra: a[5] == "1", tree: a[6] == "1", ord: if a.len() == 8 { nu(a[7])? as u8 } else { 0 } }
             }
             x => return Err(format!("unknown op {}", x)),
         })
@@ -299,8 +307,8 @@ impl Op {
             Op::Exp(i, k) => r_loop(g(i), *k, Some(*k)),
             Op::SmtLoop(i, a, b) | Op::LoopFin(i, a, b) => r_loop(g(i), *a, Some(*b)),
             Op::LoopInf(i, a) => r_loop(g(i), *a, None),
-            Op::Wide { n, b1, s1, b2, s2, extra, .. } => r_or(
-                wide_items(*n, *b1, *s1, *b2, *s2, *extra)
+            Op::Wide { n, b1, s1, b2, s2, extra, ord, .. } => r_or(
+                wide_items(*n, *b1, *s1, *b2, *s2, *extra, *ord)
                     .into_iter()
                     .map(|it| match it {
                         Ok((f, l)) => r_cat(vec![r_range(f, f), r_range(l, l)]),
@@ -341,9 +349,9 @@ impl Op {
             Op::SmtLoop(i, a, b) => m.smt_loop(g(i), *a, *b),
             Op::LoopFin(i, a, b) => m.mk_loop(g(i), LoopRange::finite(*a, *b)),
             Op::LoopInf(i, a) => m.mk_loop(g(i), LoopRange::infinite(*a)),
-            Op::Wide { n, b1, s1, b2, s2, extra, tree } => {
+            Op::Wide { n, b1, s1, b2, s2, extra, tree, ord } => {
                 let mut items: Vec<RegLan> = Vec::new();
-                for it in wide_items(*n, *b1, *s1, *b2, *s2, *extra) {
+                for it in wide_items(*n, *b1, *s1, *b2, *s2, *extra, *ord) {
                     items.push(match it {
                         Ok((f, l)) => {
                             let (x, y) = (m.char(f), m.char(l));
@@ -390,8 +398,8 @@ impl Op {
             Op::Exp(i, k) => w::re_power(g(i), *k),
             Op::SmtLoop(i, a, b) | Op::LoopFin(i, a, b) => w::re_loop(g(i), *a, *b),
             Op::LoopInf(i, a) => w::re_concat(w::re_power(g(i), *a), w::re_star(g(i))),
-            Op::Wide { n, b1, s1, b2, s2, extra, tree } => {
-                let items: Vec<RegLan> = wide_items(*n, *b1, *s1, *b2, *s2, *extra)
+            Op::Wide { n, b1, s1, b2, s2, extra, tree, ord } => {
+                let items: Vec<RegLan> = wide_items(*n, *b1, *s1, *b2, *s2, *extra, *ord)
                     .into_iter()
                     .map(|it| match it {
                         Ok((f, l)) => w::str_to_re(&s(&[f, l])),
@@ -479,8 +487,8 @@ impl Program {
                     v.extend_from_slice(b)
                 }
                 Op::Str(s) => v.extend_from_slice(s),
-                Op::Wide { n, b1, s1, b2, s2, extra, .. } => {
-                    for it in wide_items(*n, *b1, *s1, *b2, *s2, *extra) {
+                Op::Wide { n, b1, s1, b2, s2, extra, ord, .. } => {
+                    for it in wide_items(*n, *b1, *s1, *b2, *s2, *extra, *ord) {
                         match it {
                             Ok((f, l)) => {
                                 v.push(f);
@@ -1000,7 +1008,7 @@ impl<'a> Gen<'a> {
         // last letters apart from the first letters (overlapping letter sets make star/concat on top of the union
         // expensive for the crate and the reference alike, without adding a size threshold)
         let b2 = 0x5000 + self.rng.below(2) as u32 * 0x8000;
-        let op = Op::Wide { n, b1, s1, b2, s2, extra: self.rng.chance(2, 3), tree: self.rng.chance(1, 4) };
+        let op = Op::Wide { n, b1, s1, b2, s2, extra: self.rng.chance(2, 3), tree: self.rng.chance(1, 4), ord: self.rng.below(3) as u8 };
         let u = self.push(op, Kind::Other);
         match self.rng.below(5) {
             0 => {
